@@ -698,8 +698,14 @@ func checkView(r *vrun.Run, rp *reporter, ctx context.Context, fsName string, v 
 			}
 			// ... and through a handle: everything, then from an offset the handle was successfully moved to, then from the start again
 			if err == nil && s.Size >= 2 && s.Size <= 1<<20 {
-				if h, oerr := v.GenericOpen(vp); oerr != nil {
-					rp.v(sig("GenericOpen", "error:"+kindOf(oerr), ec(p)), fmt.Sprintf("%s view: GenericOpen(%q) failed: %v", fsName, vp, oerr), nil)
+				// (the handle comes from GenericOpen or from OpenFile for reading, in turn)
+				openHandle, openName := func() (filesystem.File, error) { return v.GenericOpen(vp) }, "GenericOpen"
+				if len(vp)%2 == 1 {
+					openHandle, openName = func() (filesystem.File, error) { return v.OpenFile(vp, os.O_RDONLY, 0) }, "OpenFile(O_RDONLY)"
+				}
+				r.ObsSet("view_handles_opened_through", fsName+"/"+openName)
+				if h, oerr := openHandle(); oerr != nil {
+					rp.v(sig(openName, "error:"+kindOf(oerr), ec(p)), fmt.Sprintf("%s view: %s(%q) failed: %v", fsName, openName, vp, oerr), nil)
 				} else {
 					readRest := func(step string, want []byte) {
 						got, rerr := io.ReadAll(h)
